@@ -1638,4 +1638,134 @@ theorem iterBackward_grad (T : TOps τ) (hassoc : ∀ x y z : τ, T.add (T.add x
   rw [mapPG_self] at this
   exact this
 
+
+/-! ### operators after the target -/
+
+/-- the graph with further operators appended -/
+def State.appendOps (s : State τ) (extra : List (OpInfo τ)) : State τ := { s with ops := s.ops ++ extra }
+
+theorem appendOps_getElem? (s : State τ) (e : List (OpInfo τ)) {i : Nat} (h : i < s.ops.length) :
+    (s.appendOps e).ops[i]? = s.ops[i]? := List.getElem?_append_left h
+
+theorem appendOps_updNode (s : State τ) (e : List (OpInfo τ)) (a : Addr) (f : NodeInfo τ → NodeInfo τ)
+    (h : a.oid < s.ops.length) : (s.appendOps e).updNode a f = (s.updNode a f).appendOps e := by
+  unfold State.updNode
+  rw [appendOps_getElem? s e h]
+  cases s.ops[a.oid]? with
+  | none => rfl
+  | some o => simp [State.appendOps, h]
+
+theorem appendOps_zeroFill (T : TOps τ) (e : List (OpInfo τ)) (l : List Addr) :
+    ∀ s : State τ, (∀ a ∈ l, a.oid < s.ops.length) →
+      zeroFill T (s.appendOps e) l = (zeroFill T s l).appendOps e := by
+  induction l with
+  | nil => intro s _; rfl
+  | cons a rest ih =>
+    intro s h
+    rw [zeroFill_cons, zeroFill_cons, appendOps_updNode _ _ _ _ (h a (by simp)), ih]
+    intro b hb
+    rw [updNode_length]
+    exact h b (by simp [hb])
+
+theorem appendOps_addContribs (T : TOps τ) (e : List (OpInfo τ)) (l : List (Addr × Option τ)) :
+    ∀ s : State τ, (∀ x ∈ l, x.1.oid < s.ops.length) →
+      addContribs T (s.appendOps e) l = (addContribs T s l).appendOps e := by
+  induction l with
+  | nil => intro s _; rfl
+  | cons x rest ih =>
+    intro s h
+    obtain ⟨a, c⟩ := x
+    have hr : ∀ x ∈ rest, x.1.oid < s.ops.length := fun x hx => h x (by simp [hx])
+    cases c with
+    | none => rw [addContribs_none, addContribs_none, ih _ hr]
+    | some c =>
+      rw [addContribs_some, addContribs_some, appendOps_updNode _ _ _ _ (h (a, some c) (by simp)), ih]
+      intro b hb
+      rw [updNode_length]
+      exact hr b hb
+
+theorem appendOps_invalidateGrads (s : State τ) (e : List (OpInfo τ)) (k : Nat) (h : k < s.ops.length) :
+    invalidateGrads (s.appendOps e) k = (invalidateGrads s k).appendOps e := by
+  unfold invalidateGrads
+  rw [appendOps_getElem? s e h]
+  cases s.ops[k]? with
+  | none => rfl
+  | some o => simp [State.appendOps, h]
+
+theorem appendOps_valueOf (s : State τ) (e : List (OpInfo τ)) (a : Addr) (h : a.oid < s.ops.length) :
+    (s.appendOps e).valueOf? a = s.valueOf? a := by
+  unfold State.valueOf?
+  rw [appendOps_getElem? s e h]
+  rfl
+
+theorem mapM_option_congr {α β} (f g : α → Option β) (l : List α) (h : ∀ a ∈ l, f a = g a) :
+    l.mapM f = l.mapM g := by
+  induction l with
+  | nil => rfl
+  | cons a rest ih =>
+    simp only [List.mapM_cons]
+    rw [h a (by simp), ih (fun b hb => h b (by simp [hb]))]
+
+theorem zeroFill_length (T : TOps τ) (s : State τ) (l : List Addr) : (zeroFill T s l).ops.length = s.ops.length :=
+  skel_length (zeroFill_sameFrame T l s).skel
+
+theorem appendOps_stepCore (T : TOps τ) (e : List (OpInfo τ)) (s2 : State τ) (o : OpInfo τ) (xs ys gys : List τ)
+    (h : ∀ a ∈ o.args, a.oid < s2.ops.length) :
+    stepCore T (s2.appendOps e) o xs ys gys = (stepCore T s2 o xs ys gys).appendOps e := by
+  unfold stepCore
+  cases o.kind with
+  | param p => simp only; cases gys <;> rfl
+  | rnd => rfl
+  | op sem =>
+    simp only
+    apply appendOps_addContribs
+    intro x hx
+    exact h x.1 (List.of_mem_zip hx).1
+
+theorem appendOps_backwardStep (T : TOps τ) (e : List (OpInfo τ)) (s : State τ) (k : Nat)
+    (hk : k < s.ops.length) (hw : ArgsBelow s) :
+    backwardStep T (s.appendOps e) k = ((backwardStep T s k).1.appendOps e, (backwardStep T s k).2) := by
+  simp only [backwardStep_eq]
+  rw [appendOps_getElem? s e hk]
+  cases ho : s.ops[k]? with
+  | none => rfl
+  | some o =>
+    simp only
+    have hargs : ∀ a ∈ o.args, a.oid < s.ops.length := fun a ha => Nat.lt_trans (hw k o ho a ha) hk
+    have hrets : ∀ a ∈ retAddrs k o, a.oid < s.ops.length := fun a ha => by
+      rw [((mem_retAddrs k o a).mp ha).1]; exact hk
+    by_cases he : (!o.enabled) = true
+    · simp only [he, if_true]
+    · rw [if_neg he, if_neg he]
+      rw [mapM_option_congr _ s.valueOf? o.args (fun a ha => appendOps_valueOf s e a (hargs a ha))]
+      cases o.args.mapM s.valueOf? with
+      | none => simp only; rw [appendOps_zeroFill T e _ s hrets]
+      | some xs =>
+        simp only
+        rw [appendOps_zeroFill T e _ s hrets, appendOps_zeroFill T e _ _ (by rw [zeroFill_length]; exact hargs),
+          appendOps_stepCore T e _ _ _ _ _ (by rw [zeroFill_length, zeroFill_length]; exact hargs),
+          appendOps_invalidateGrads _ _ _ (by
+            rw [skel_length (stepCore_sameFrame T _ _ _ _ _).skel, zeroFill_length, zeroFill_length]; exact hk)]
+
+/-- operators appended after the first `k` ones are neither read nor written by `sweep T k` -/
+theorem appendOps_sweep (T : TOps τ) (e : List (OpInfo τ)) : ∀ (k : Nat) (s : State τ),
+    k ≤ s.ops.length → ArgsBelow s →
+    sweep T k (s.appendOps e) = ((sweep T k s).1.appendOps e, (sweep T k s).2) := by
+  intro k
+  induction k with
+  | zero => intro s _ _; rfl
+  | succ k ih =>
+    intro s hk hw
+    simp only [sweep]
+    rw [appendOps_backwardStep T e s k (by omega) hw]
+    have hf := backwardStep_sameFrame T s k
+    rcases hb : backwardStep T s k with ⟨s1, r⟩
+    rw [hb] at hf
+    cases r with
+    | error e => rfl
+    | ok u =>
+      cases u
+      simp only
+      exact ih s1 (by rw [skel_length hf.skel]; omega) (argsBelow_of_skel hf.skel hw)
+
 end Primitiv.Graph
